@@ -449,6 +449,47 @@ def unit_methods(unit):
                     agg.outcomes["method-agree"] += 1
                   if obs(v) != b:
                     agg.violation(V(f"method.{kind}.{name}", "operand-modified", case, None, None, py))
+    # histories: call the broadcast method, edit the vector in place, call the SAME method again (a proxy or a
+    # result must never be remembered across a write)
+    for name in names:
+        cls_attr = getattr(pytype, name)
+        is_prop = not callable(cls_attr)
+        for args in ([()] if is_prop else ARG_MENU):
+            try:
+                for a in alpha:
+                    getattr(a, name) if is_prop else getattr(a, name)(*args)
+            except Exception:
+                continue
+            data = [alpha[0], alpha[1 % len(alpha)], alpha[0]]
+            for wl in ("int", "slice", "replace-all"):
+                d2 = list(data)
+                agg.evals += 1; agg.transitions += 3; agg.states += 1; agg.nontrivial += 1
+                case = {"kind": kind, "method": name, "args": list(args), "data": data, "write": wl,
+                        "history": ["call", "in-place write", "call again"]}
+                try:
+                    v = Vector(list(data))
+                    r1 = getattr(v, name) if is_prop else getattr(v, name)(*args)
+                    if wl == "int":
+                        v[0] = alpha[-1]; d2[0] = alpha[-1]
+                    elif wl == "slice":
+                        v[1:3] = [alpha[-1], alpha[-1]]; d2[1:3] = [alpha[-1], alpha[-1]]
+                    else:
+                        v[[True, True, True]] = alpha[-1]; d2 = [alpha[-1]] * 3
+                    r2 = getattr(v, name) if is_prop else getattr(v, name)(*args)
+                except Exception as e:
+                    agg.violation(V(f"method.{kind}.{name}", "history-raises-" + type(e).__name__, case, None, repr(e)[:80]))
+                    continue
+                want2 = [getattr(x, name) if is_prop else getattr(x, name)(*args) for x in d2]
+                want1 = [getattr(x, name) if is_prop else getattr(x, name)(*args) for x in data]
+                agg.compared += 2
+                g1, g2 = result_list(r1), result_list(r2)
+                if g2 is None or not same_list(g2, want2):
+                    agg.violation(V(f"method.{kind}.{name}", "stale-result-after-in-place-write", case, want2, g2))
+                elif g1 is None or not same_list(g1, want1):
+                    agg.violation(V(f"method.{kind}.{name}", "earlier-result-changed-by-later-write", case, want1, g1))
+                else:
+                    agg.outcomes["method-history-agree"] += 1
+            break       # one accepted argument tuple per method is enough for the history pass
     agg.notes[f"methods_{kind}"] = len(names)
     agg.sample({"methods": kind, "count": len(names), "example": names[:6]})
     return agg
